@@ -148,10 +148,11 @@ def r5(c):
                '<rodbus::client::message::Promise<T> as core::ops::drop::Drop>::drop', '<rodbus::client::requests::read_bits::Promise as core::ops::drop::Drop>::drop',
                '<rodbus::client::requests::read_registers::Promise as core::ops::drop::Drop>::drop', 'rodbus::server::task::SessionTask::run_one'}
     c.ob('Shutdown/constructors', set(sd) <= allowed, 'RequestError::Shutdown is produced only by the dead-task conversions and the promise Drop backstops (and the server session)', str(sorted(set(sd) - allowed)))
-    tr = P.find_impl('core::convert::From', 'rodbus::client::ffi_channel::FfiChannelError', 'from', 'tokio::sync::mpsc::error::TrySendError<T>')
-    arms = q.arms_of(tr, 'tokio::sync::mpsc::error::TrySendError')
-    exs = q.exits(tr)
-    for v, want in (('Full', 'ChannelFull'), ('Closed', 'ChannelClosed')):
+    has_ffi = P.has('rodbus::client::ffi_channel::FfiChannel::send')
+    tr = P.find_impl('core::convert::From', 'rodbus::client::ffi_channel::FfiChannelError', 'from', 'tokio::sync::mpsc::error::TrySendError<T>') if has_ffi else None
+    arms = q.arms_of(tr, 'tokio::sync::mpsc::error::TrySendError') if tr else {}
+    exs = q.exits(tr) if tr else []
+    for v, want in ((('Full', 'ChannelFull'), ('Closed', 'ChannelClosed')) if tr else ()):
         reg = set()
         for e, r in arms.get(v, []):
             reg |= r
@@ -185,6 +186,8 @@ def r6(c):
         n += 1 if ok else 0
     c.exact('Channel methods', n, 8)
     for f, sender in (('rodbus::client::channel::CallbackSession::send', 'tokio::sync::mpsc::bounded::Sender::send'), ('rodbus::client::ffi_channel::FfiChannel::send', 'tokio::sync::mpsc::bounded::Sender::try_send')):
+        if not P.has(f):
+            continue
         b = P.fn(f)
         snd = b.calls(sender)
         ok = len(snd) == 1 and q.is_name(b, snd[0].args[1], 'command') and not b.in_cycle(snd[0].node)
